@@ -189,13 +189,19 @@ def c11_obligations():
     return utils_obligations() + cv_obligations()
 
 
-CHAIN_FUNCS = ["Chain.predict", (os.path.join("verde", "base", "utils.py"), "check_data")]
-CHAIN_THEOREMS = ["src_Chain_predict_eq", "chain_predict_from_fold"]
+_BASE_UTILS = os.path.join("verde", "base", "utils.py")
+_BASE_CLASSES = os.path.join("verde", "base", "base_classes.py")
+_COORDS = os.path.join("verde", "coordinates.py")
+CHAIN_FUNCS = ["Chain.predict", (_BASE_UTILS, "check_data"),
+               (_BASE_CLASSES, "BaseGridder.filter"), "Chain.fit", (_COORDS, "get_region"), "Chain.__init__"]
+CHAIN_THEOREMS = ["src_Chain_predict_eq", "chain_predict_from_fold",
+                  "src_BaseGridder_filter_eq", "src_Chain_fit_eq", "src_Chain_fit_calls", "chain_fit_calls_model",
+                  "src_Chain_init_eq"]
 CHAIN_IMPORTS = "From Verde Require Import Model.Chain Proofs.PyLiteBridge."
 
 
 def chain_obligations():
-    """verde/chain.py Chain.predict against Model/Chain.v (property C06); to hook it:
-    `obligations = pylite_tie.chain_obligations` in harness/c06.py"""
+    """verde/chain.py Chain.predict / Chain.fit / Chain.__init__ and BaseGridder.filter against Model/Chain.v
+    (property C06); to hook it: `obligations = pylite_tie.chain_obligations` in harness/c06.py"""
     return tie("ChainSrc", os.path.join("verde", "chain.py"), CHAIN_FUNCS, "pylite_chain.v.tmpl",
                CHAIN_THEOREMS, CHAIN_IMPORTS)
